@@ -49,6 +49,8 @@ __all__ = [
 # stdlib imports
 import logging
 import datetime
+import os
+import tempfile
 import http.cookiejar
 import uuid
 import xml.etree.ElementTree as ET
@@ -536,10 +538,24 @@ class OFXClient:
             dtprofup_server = proftrnrs.profrs.dtprofup
             assert dtprofup is None or dtprofup <= dtprofup_server
 
-            # Cache the updated PROFRS sent by the server
+            # Cache the updated PROFRS sent by the server.  Write it to a temporary
+            # file in the same directory and rename that into place: a crash or a
+            # concurrent request_profile() then never leaves an empty, truncated or
+            # interleaved cache file (which would make every later request fail).
             response.seek(0)
-            with open(persistpath, "wb") as f:
-                f.write(response.read())
+            fd, tmpname = tempfile.mkstemp(dir=persistdir, prefix=filename + ".")
+            try:
+                with os.fdopen(fd, "wb") as f:
+                    f.write(response.read())
+                    f.flush()
+                    os.fsync(f.fileno())
+                os.replace(tmpname, persistpath)
+            except BaseException:
+                try:
+                    os.unlink(tmpname)
+                except OSError:
+                    pass
+                raise
 
         # Rewind PROFRS so it can be returned cleanly after having been parsed.
         response.seek(0)
